@@ -3,7 +3,10 @@
    frame   : `(T (L T:<t>*) (D (<hexname> (L <cell>*))*))`
    array   : 1-d `(L <cell>*)`, 2-d `(L (L <cell>*)*)` = list of COLUMNS
    methods : `(M m*)` list, `(MT m*)` tuple, `(M1 m)` bare;  m = ffill|bfill|backfill|ffill_na|ffill_0|fnna|nona|c:<int>
-   limit   : `N` | `I:<k>` -/
+   limit   : `N` | `I:<k>`
+   index kinds (review v4 2.1): the ops `…-si`, `…-sf`, `…-dfi`, `…-dff` are the Series / DataFrame ops over an INTEGER / FLOAT
+   labelled index; the labels travel as `T:<k>` (float labels scaled by 4) - to the model a label is an `Int` whatever it spells,
+   so these ops are answered exactly as `…-s` / `…-df` (`baseOp`). -/
 import PygModel.Fill
 
 namespace Pyg.FillDriver
@@ -77,7 +80,16 @@ abbrev St := Unit
 def init : St := ()
 def modelName : String := "fill"
 
-def handle1 (op : String) (args : List Sexp) : Option String := do
+/-- the pandas ops over integer (`i`) / float (`f`) labels are the ops over abstract `Int` labels -/
+def baseOp (op : String) : String :=
+  if op = "fillna-si" || op = "fillna-sf" then "fillna-s"
+  else if op = "fillna-dfi" || op = "fillna-dff" then "fillna-df"
+  else if op = "nona-si" || op = "nona-sf" then "nona-s"
+  else if op = "nona-dfi" || op = "nona-dff" then "nona-df"
+  else op
+
+def handle1 (op0 : String) (args : List Sexp) : Option String := do
+  let op := baseOp op0
   match op, args with
   | "fillna-s", [x, ms, lim] =>
       let ts ← TS.ofVal (← Val.ofSexp x); let ms ← methodsOf ms; let lim ← limitOf lim
